@@ -8,7 +8,7 @@ from typing import Dict, List, Optional, Sequence, Tuple
 
 from ..fold import Folder
 from ..model import AnchorError, Program, dotted, last_attr, norm, parent, walk_no_nested
-from ..report import Check
+from ..report import Check, guard
 from .binder import Binder, core
 from .common import calls_in, guards_of, local_assignments, need_locals, stmt_of
 
@@ -395,14 +395,12 @@ def r05_fg(prog: Program, chk: Check) -> None:
 
 def run(prog: Program, chk: Check) -> None:
     b = Binder(prog)
-    r05_a(prog, chk, b)
-    r05_b(prog, chk, b)
-    r05_c(prog, chk, b)
-    r05_d(prog, chk)
-    r05_e(prog, chk, b)
-    r05_fg(prog, chk)
-
-
+    guard(chk, r05_a, prog, chk, b)
+    guard(chk, r05_b, prog, chk, b)
+    guard(chk, r05_c, prog, chk, b)
+    guard(chk, r05_d, prog, chk)
+    guard(chk, r05_e, prog, chk, b)
+    guard(chk, r05_fg, prog, chk)
 def run_thorough(prog: Program, chk: Check) -> None:
     """Validation of the *reference* (not of pyanalyze): the table-driven
     cpython_outcome() is compared with the interpreter's own argument binding on
